@@ -224,7 +224,7 @@ def _config_cases(draw):
     c = draw(_delegation_cases())
     calls.append(["verify_delegation", c["role"], GE.to_envelope(c), _trusted_for(c, c["role"]), c["gpg"]])
     cfg = draw(configrun.configs)
-    cfg["stdout"] = draw(st.sampled_from([None, None, "closed"]))
+    cfg["stdout"] = draw(st.sampled_from([None, "closed", "broken"]))
     return {"calls": calls, "config": cfg}
 
 
@@ -243,7 +243,15 @@ def _interrupted_cases():
     return C12._fault_cases()
 
 
+def check_interrupted_sweep(case):
+    from props import C12
+    return C12.check_fault_sweep(case)
+
+
 UNITS = [
+    Unit("interrupted_sweep", check_interrupted_sweep, strategy=lambda: __import__("props.C12", fromlist=["x"])._sweep_cases(),
+         quick=36, thorough=900, shards_quick=6,
+         doc="every line event and every C-level call (the crypto dependency included) of a verification interrupted once, then retried"),
     Unit("interrupted", check_interrupted, strategy=_interrupted_cases, quick=160, thorough=2000, shards_quick=8,
          doc="calls interrupted by an injected exception, then evaluated normally: an interrupted verification leaves nothing behind "
              "that could count as a signer later"),
